@@ -12,6 +12,9 @@ prop(
         dict(run="^TestPropFailover$",
              quick=dict(checks=320, shards=16, timeout=900),
              thorough=dict(checks=4800, shards=16, timeout=3600)),
+        dict(run="^TestPropFailoverSeq$",
+             quick=dict(checks=256, shards=16, timeout=900),
+             thorough=dict(checks=6400, shards=16, timeout=3600)),
         dict(run="^TestPropChecks$",
              quick=dict(checks=440, shards=8, timeout=900),
              thorough=dict(checks=48000, shards=16, timeout=5400)),
@@ -22,7 +25,12 @@ prop(
          "timeout (pint timeout 20 ms + its fixed 1 s, handler blocks until the client gives up), HTTP 500 plain, 503 plain, JSON server_error, "
          "bad_data 400, execution 422, 404, truncated body} x endpoint in {query, query_range (1 or 3 slices), config, flags, metadata} x required; one "
          "call through FailoverGroup; judged from each listening upstream's request log (contacted or not, order) and the returned answer/error. "
-         "Non-trivial: >=2 upstreams, the first one unavailable and a later one not (a failover decision is actually taken). part 2: 11 check "
+         "Non-trivial: >=2 upstreams, the first one unavailable and a later one not (a failover decision is actually taken). sequences: one LIVE "
+         "failover group walked through 2-4 phases, each with its own fault assignment (per-upstream scripts such as timeout->healthy->healthy->timeout, "
+         "5xx->healthy, refused->healthy, healthy->timeout, or drawn), 1-2 calls per phase, mostly the same request again, sometimes another endpoint or "
+         "expression; the part-1 oracle applied per call to the contacts logged during that call, with pint's documented caching in mind: an upstream "
+         "that already answered THIS request successfully may answer it again without being contacted; contact is demanded wherever no such answer "
+         "exists. Non-trivial (sequences): some upstream recovered between phases and an answer was obtained after that. part 2: 11 check "
          "constructors taking a Prometheus server (10 online checks + rule/duplicate) x generated alerting/recording rules (18 expressions covering "
          "absent, rate/irate/deriv, counters, vector matching, long ranges, plain selectors; for/labels/annotations variants) x the checks' documented settings (half of the cases: promql/series ignoreMetrics / lookbackRange / lookbackStep / "
          "ignoreLabelsValue through the context as the config block does, alerts/count range/step/resolve/minCount/severity/comment, query/cost limits/"
